@@ -24,6 +24,9 @@ PROP = {'rule': 'rapid-generated cases. loop (KillAndEvictPods): 1-3 tasks over 
          'positive target, a terminating earlier victim the task\'s policy allows and a fresh candidate for the same task. '
          'memListsLarge/cpuListsLarge: 13-40 mostly eligible pods with 2-3 distinct priorities and mostly no sub-priority label / '
          'eviction priority (long runs tied on every key but usage/request), same list oracle; non-trivial as for the list units. '
+         '*ListsHelpers/*EndToEndHelpers: 2-8 mostly eligible pods, 4 in 5 with 1-2 extra containers that declare no request of the '
+         'evicted resource (empty or another resource only), amounts in single units so that the victims\' real requests (sum over '
+         'the containers that declare one) often hit the allocatable target exactly; same oracles. '
          'memRoundsGrace/cpuRoundsGrace: the same histories with spec.terminationGracePeriodSeconds unset / 0 / 1 / 30 / 3600 per pod; '
          'non-trivial = a later round with a computed target in which an earlier victim with grace period 0 is still present. '
          'distinct = FNV-64 fingerprint of the full case description.',
@@ -47,16 +50,20 @@ PROP = {'rule': 'rapid-generated cases. loop (KillAndEvictPods): 1-3 tasks over 
             'pkg': 'pkg/koordlet/qosmanager/plugins/memoryevict',
             'files': ['C11/c11_mem_test.go', 'C11/c11_mem_rounds_test.go'],
             'tests': [{'run': 'TestVerifC11MemLists', 'quick': 2000, 'thorough': 20000},
+                      {'run': 'TestVerifC11MemListsHelpers', 'quick': 800, 'thorough': 5000},
                       {'run': 'TestVerifC11MemListsLarge', 'quick': 400, 'thorough': 3000},
                       {'run': 'TestVerifC11MemEndToEnd', 'quick': 2000, 'thorough': 20000},
+                      {'run': 'TestVerifC11MemEndToEndHelpers', 'quick': 800, 'thorough': 5000},
                       {'run': 'TestVerifC11MemRounds', 'quick': 1500, 'thorough': 10000},
                       {'run': 'TestVerifC11MemRoundsGrace', 'quick': 1000, 'thorough': 6000}]},
            {'name': 'cpu',
             'pkg': 'pkg/koordlet/qosmanager/plugins/cpuevict',
             'files': ['C11/c11_cpu_test.go', 'C11/c11_cpu_rounds_test.go'],
             'tests': [{'run': 'TestVerifC11CPULists', 'quick': 2000, 'thorough': 20000},
+                      {'run': 'TestVerifC11CPUListsHelpers', 'quick': 800, 'thorough': 5000},
                       {'run': 'TestVerifC11CPUListsLarge', 'quick': 400, 'thorough': 3000},
                       {'run': 'TestVerifC11CPUEndToEnd', 'quick': 2000, 'thorough': 20000},
+                      {'run': 'TestVerifC11CPUEndToEndHelpers', 'quick': 800, 'thorough': 5000},
                       {'run': 'TestVerifC11CPURounds', 'quick': 1500, 'thorough': 10000},
                       {'run': 'TestVerifC11CPURoundsGrace', 'quick': 1000, 'thorough': 6000}]}],
  'manifest': {'technique': 'property-based testing (rapid): generated task sets / victim lists / failure patterns against a recording '
